@@ -1317,6 +1317,152 @@ def _in_branch(fn_node, stmt):
     return False
 
 
+def rule_r10(chk, p, t):
+    r = chk.rule(
+        "C01.R10",
+        "every configured event that can meet the simulated span is loaded",
+        1,
+        "ScenarioBuilder._loadEventsIntoDatabase builds and inserts one Event per configured event: the construction "
+        "`Event.concreteFromConfig(event_config)` is reached on every iteration of the loop over the configured events and "
+        "all built events go into one insertData. A filter in that loop may only drop events whose closed interval "
+        "[start, end] cannot meet the simulated span (start of the scenario, stop]: its keep-condition, read as a "
+        "comparison-only predicate, must hold on every weak ordering of (event start, event end, scenario start, scenario "
+        "stop) on which `start <= stop and end > scenario start` holds - in particular an event exactly at the stop time is "
+        "delivered in the last step",
+        "time-zone normalisation of the configured datetimes",
+    )
+    sb = p.cls("resonaate.scenario.scenario_builder.ScenarioBuilder")
+    fn = sb.methods.get("_loadEventsIntoDatabase")
+    require(fn is not None, "ScenarioBuilder._loadEventsIntoDatabase not found", sb.node)
+    pm = parents_map(fn.node)
+
+    def one():
+        sites = [c for c in walk_no_nested(fn.node) if isinstance(c, ast.Call) and call_name(c) == "concreteFromConfig"]
+        require(len(sites) == 1, "one Event.concreteFromConfig call expected", fn.node)
+        site = sites[0]
+        loops = []
+        x = site
+        while x in pm:
+            x = pm[x]
+            if isinstance(x, ast.For):
+                loops.append(x)
+        require(loops, "events are not built in a loop", site)
+        lp = loops[-1]
+        it = unparse(lp.iter)
+        if "self._config.events" not in it and "self.config.events" not in it:
+            raise Undecided(f"the event loop iterates `{it}`", lp)
+        if any(isinstance(c, ast.Call) and call_name(c) in ("filter", "takewhile", "dropwhile") for c in ast.walk(lp.iter)) or any(isinstance(g, ast.comprehension) and g.ifs for g in ast.walk(lp.iter)) or any(isinstance(sl, ast.Subscript) for sl in ast.walk(lp.iter) if isinstance(sl, ast.Subscript) and isinstance(sl.slice, ast.Slice)):
+            r.violation(fn.qualname + ":iter", f"event-iter-filtered:{it[:60]}", f"the loop over the configured events iterates `{it[:80]}`: a filtered / sliced view - some configured events are never loaded", fn.loc(lp))
+            return
+        ev = lp.target.id if isinstance(lp.target, ast.Name) else None
+        require(ev is not None, "loop target is not a plain name", lp)
+        # statements of the outer loop body that can skip the construction: continue / break outside nested loops, or an
+        # enclosing If of the construction
+        filters = []  # (keep-condition ast, positive?)
+        st_site = site
+        while pm.get(st_site) is not lp:
+            par = pm[st_site]
+            if isinstance(par, ast.If):
+                in_body = any(st_site is b for b in par.body)
+                filters.append((par.test, in_body, par))
+            st_site = par
+        for n in ast.walk(lp):
+            if isinstance(n, (ast.Continue, ast.Break)):
+                # innermost enclosing loop must be lp for it to skip an event
+                y = n
+                inner = None
+                while y in pm:
+                    y = pm[y]
+                    if isinstance(y, (ast.For, ast.While)):
+                        inner = y
+                        break
+                if inner is not lp:
+                    continue
+                if n.lineno > st_site.lineno:
+                    continue
+                g = pm[n]
+                if not isinstance(g, ast.If):
+                    raise Undecided("an unconditional continue / break precedes the event construction", n)
+                in_body = any(n is b for b in g.body)
+                # skipping when test (in body) => keep-condition is `not test`
+                filters.append((g.test, not in_body, g))
+        if not filters:
+            r.ok(fn.qualname + ":unfiltered", f"every `{it}` element reaches Event.concreteFromConfig", fn.loc(site))
+        for test, positive, node in filters:
+            cons = fn.qualname + ":filter"
+            keep = test
+            # inline a single-return helper of the builder: self._helper(ev)
+            k2 = keep
+            neg = not positive
+            while isinstance(k2, ast.UnaryOp) and isinstance(k2.op, ast.Not):
+                neg, k2 = not neg, k2.operand
+            subst = {ev: ev}
+            if isinstance(k2, ast.Call) and isinstance(k2.func, ast.Attribute) and isinstance(k2.func.value, ast.Name) and k2.func.value.id == "self":
+                h = p.lookup_method(sb, k2.func.attr)
+                if h is not None:
+                    rets = [x for x in walk_no_nested(h.node) if isinstance(x, ast.Return) and x.value is not None]
+                    if len(rets) == 1 and len(k2.args) == 1 and len(h.params) == 2:
+                        from rsa.terms import inline_locals
+
+                        body = inline_locals(h, rets[0].value)
+                        prm = h.params[1]
+
+                        class S(ast.NodeTransformer):
+                            def visit_Name(self, nn):
+                                return ast.copy_location(ast.Name(id=ev, ctx=ast.Load()), nn) if nn.id == prm else nn
+
+                        k2 = S().visit(copy.deepcopy(body))
+
+            def symf(e):
+                txt = unparse(e)
+                # strip tz / wrapper calls: x.replace(tzinfo=None), datetimeToJulianDate(x), float(x)
+                while True:
+                    if isinstance(e, ast.Call) and isinstance(e.func, ast.Attribute) and e.func.attr in ("replace", "astimezone") and not e.args:
+                        e = e.func.value
+                    elif isinstance(e, ast.Call) and call_name(e) in ("datetimeToJulianDate", "float", "JulianDate") and len(e.args) == 1:
+                        e = e.args[0]
+                    else:
+                        break
+                txt = unparse(e)
+                if txt == f"{ev}.start_time":
+                    return "s"
+                if txt == f"{ev}.end_time":
+                    return "e"
+                if txt.endswith("time.start_timestamp") or txt.endswith("clock.datetime_start") or txt.endswith("clock.julian_date_start"):
+                    return "t0"
+                if txt.endswith("time.stop_timestamp") or txt.endswith("clock.datetime_stop") or txt.endswith("clock.julian_date_stop"):
+                    return "t1"
+                raise Undecided(f"event filter compares `{txt[:60]}`: not the event's start / end or the scenario's start / stop", e)
+
+            pred = O.from_ast(k2, symf)
+            if neg:
+                pred = O.Not(pred)
+            sy = lambda nme: nme  # noqa: E731
+            spec = O.And(O.Cmp("<=", "s", "t1"), O.Cmp(">", "e", "t0"))
+            assume = O.And(O.Cmp("<=", "s", "e"), O.Cmp("<", "t0", "t1"))
+            lost = []
+            n_ord = 0
+            for env in O.all_orderings(["s", "e", "t0", "t1"], assume):
+                n_ord += 1
+                if spec.ev(env) and not pred.ev(env):
+                    lost.append(O.describe(env))
+            _ = sy
+            if lost:
+                r.violation(cons, "event-filter-drops:" + "|".join(sorted(lost)), f"the load-time filter `{unparse(test)[:80]}` drops events that the simulated span (t0, t1] still meets, on the orderings {sorted(lost)[:4]} (s, e = event start / end; t0, t1 = scenario start / stop): e.g. an event exactly at the stop time belongs to the last step but is never inserted, so it is never delivered", fn.loc(node))
+            else:
+                r.ok(cons, f"filter keeps every event that meets (t0, t1] ({n_ord} orderings)", fn.loc(node))
+        # all built events are inserted by one insertData
+        ins = [c for c in walk_no_nested(fn.node) if isinstance(c, ast.Call) and call_name(c) == "insertData" and any(isinstance(a, ast.Starred) for a in c.args)]
+        app = pm.get(site)
+        lst = unparse(app.func.value) if isinstance(app, ast.Call) and isinstance(app.func, ast.Attribute) and app.func.attr == "append" else None
+        if lst and len(ins) == 1 and unparse(ins[0].args[0].value) == lst:
+            r.ok(fn.qualname + ":insert", f"insertData(*{lst}) once", fn.loc(ins[0]))
+        else:
+            r.violation(fn.qualname + ":insert", "events-not-inserted", "the built events are not all passed to one insertData call", fn.loc(site))
+
+    r.guard(fn.qualname, one)
+
+
 def run(chk, p, t):
     chk.explanation = (
         "Static decision of structural necessary conditions of C01 on the current source: (R1) window tiling "
@@ -1333,8 +1479,8 @@ def run(chk, p, t):
         "agent time equals the clock time before the tick when prunePropagateEvents runs (PropagateRegistration.generateSubmission)",
         "call resolution by the repo's annotations and class-hierarchy analysis",
     ]
-    for fn in (rule_r1, rule_r2, rule_r3, rule_r4, rule_r5, rule_r6, rule_r7, rule_r8, rule_r9):
-        rid = "C01.R" + fn.__name__[-1]
+    for fn in (rule_r1, rule_r2, rule_r3, rule_r4, rule_r5, rule_r6, rule_r7, rule_r8, rule_r9, rule_r10):
+        rid = "C01.R" + fn.__name__.split("_r")[-1]
         if not chk.wants(rid):
             continue
         try:
